@@ -21,6 +21,7 @@ inductive Err where
 inductive State where
   | initial
   | backslash
+  | backslashCr           -- `\` and a carriage return seen: the line feed of a CRLF line end must follow
   | unicode
   | unicodeValue (hex : List Char)
   deriving DecidableEq, Repr, Inhabited
@@ -58,8 +59,10 @@ def step (st : State) (c : Char) : Except Err (State × List Char) :=
     else if c = 't' then .ok (.initial, ['\t'])
     else if c = '\\' then .ok (.initial, ['\\'])
     else if c = '\n' then .ok (.initial, [])
+    else if c = '\r' then .ok (.backslashCr, [])
     else if c = '"' then .ok (.initial, ['"'])
     else .error (.invalidEscape c)
+  | .backslashCr => if c = '\n' then .ok (.initial, []) else .error (.invalidEscape '\r')
   | .unicode => if c = '{' then .ok (.unicodeValue [], []) else .error (.unicodeDelimiter c)
   | .unicodeValue hex =>
     if c = '}' then
@@ -75,7 +78,9 @@ def step (st : State) (c : Char) : Except Err (State × List Char) :=
     else .error (.unicodeCharacter c)
 
 def cookLoop : State → List Char → List Char → Except Err (List Char)
-  | st, [], acc => if st = .initial then .ok acc else .error .unicodeUnterminated
+  | st, [], acc =>
+    if st = .backslashCr then .error (.invalidEscape '\r')
+    else if st = .initial then .ok acc else .error .unicodeUnterminated
   | st, c :: cs, acc =>
     match step st c with
     | .error e => .error e
